@@ -5,7 +5,7 @@
 //! also gives read(write(v)) == v for every v in the image of the reader; and
 //! (b) value -> write -> read == value where the value type can be built directly.
 //!
-//! @funcs WriteBuffer::{write_bytes, write_zeros, placeholder, reserve, write_placeholder, write_placeholder_dep}, WriteSlice::write_bytes, HeadTable::{read,write}, HheaTable::{read,write}, MaxpTable::{read,write}, NameTable::{read,write}, NameRecord, LangTagRecord, CvtTable::{read_dep,write}, IndexToLocFormat, TableRecord, LongHorMetric, cff::Operand::write, cff::Op::read (hook H2), loca::owned::LocaTable::write_dep, LocaTable::read_dep
+//! @funcs WriteBuffer::{write_bytes, write_zeros, placeholder, reserve, write_placeholder, write_placeholder_dep}, WriteSlice::write_bytes, HeadTable::{read,write}, HheaTable::{read,write}, MaxpTable::{read,write}, NameTable::{read,write}, NameRecord, LangTagRecord, CvtTable::{read_dep,write}, IndexToLocFormat, TableRecord, LongHorMetric, cff::Operand::write, cff::Op::read (hook H2), cff::serialise_offset_array (hook H5), cff::offset_size, loca::owned::LocaTable::write_dep, LocaTable::read_dep
 //! @out CFF/CFF2 whole-font round trips, DICTs, INDEX writer, FDSelect, charsets (parser control flow branches on symbolic bytes into Vec arms: out of reach), glyf simple-glyph reader (2 points: out of memory at 12 GB), name tables with more than 2 records, HmtxTable::write (3 glyphs: CBMC out of memory at the 10 GB cap - ReadArrayCow<LongHorMetric> iteration into a growing Vec; its reader is covered in C01/C11)
 
 use crate::util::*;
@@ -326,4 +326,36 @@ fn c15_cff_integer_operand_decoding() {
     assert!(got == Some(Operand::Integer(expect)));
     assert!(used == n);
     kani::cover!(b0 == 251 && buf[1] == 0, "-108");
+}
+
+/// CFF INDEX offset array (hook H5 wraps the private serialiser): the offset size is the
+/// smallest that holds the last (largest) offset, every offset is stored big-endian in
+/// that many bytes and reads back unchanged; an offset that does not fit 32 bits is
+/// refused - nothing is ever written truncated.
+// @bound offset arrays of 3 non-decreasing offsets starting at 1 (a 2-object INDEX), the other two any usize
+#[kani::proof]
+#[kani::unwind(8)]
+fn c15_cff_index_offset_array() {
+    let a: usize = kani::any();
+    let b: usize = kani::any();
+    kani::assume(1 <= a && a <= b);
+    match allsorts::cff::verif_serialise_offset_array(vec![1, a, b]) {
+        Ok((off_size, bytes)) => {
+            assert!(b <= 0xFFFF_FFFF);
+            let n = off_size as usize;
+            let want = if b <= 0xFF { 1 } else if b <= 0xFFFF { 2 } else if b <= 0xFF_FFFF { 3 } else { 4 };
+            assert!(n == want);
+            assert!(bytes.len() == 3 * n);
+            assert!(be(&bytes, 0, n) == 1);
+            assert!(be(&bytes, n, n) == a as u64);
+            assert!(be(&bytes, 2 * n, n) == b as u64);
+            kani::cover!(b == 256, "first offset that needs two bytes");
+            std::mem::forget(bytes);
+        }
+        Err(e) => {
+            assert!(b > 0xFFFF_FFFF);
+            assert!(matches!(e, WriteError::BadValue));
+            kani::cover!(true, "offset beyond 32 bits refused");
+        }
+    }
 }
